@@ -30,10 +30,10 @@ def generate(rng, tier):
         # unique names inside prologue / epilogue blocks so that the user-supplied Rust is itself valid
         k = [0]
         def uniq(text):
+            # every item name declared by the user-supplied Rust gets a per-block suffix (the generator re-uses a few texts)
             k[0] += 1
-            return text.replace('VERSION', 'VERSION%d' % k[0]).replace('helper', 'helper%d' % k[0]).replace(' S:', ' S%d:' % k[0]) \
-                .replace('Alias', 'Alias%d' % k[0]).replace('const A:', 'const A%d:' % k[0]).replace('const B:', 'const B%d:' % k[0]) \
-                .replace('use std::ffi::c_void;', 'pub const U%d: u8 = 0;' % k[0])
+            text = text.replace('use std::ffi::c_void;', 'pub const U: u8 = 0;')
+            return re.sub(r'\b(const|static|fn|type)\s+([A-Za-z_][A-Za-z0-9_]*)', lambda m: '%s %s%d' % (m.group(1), m.group(2), k[0]), text)
         for p, nd in list(all_nodes(c)):
             if tag(nd) == 'be':
                 nd2 = [nd[0], nd[1]] + [mkopt(uniq(opt(x))) if opt(x) is not None else x for x in nd[2:4]]
@@ -126,9 +126,16 @@ def judge_all(cases, impl, model, tier):
             codes = sorted(set(code for code, _ in errs))
             info['dist'].append('rustc-rejects:' + ','.join(codes))
             main = ([x for x in codes if x != 'E0080'] or codes or ['E----'])[0]
-            if any(code == 'E0277' and re.search(r'\[u8; (\d+)\]: Default', m_) and int(re.search(r'\[u8; (\d+)\]', m_).group(1)) > 32 for code, m_ in errs) and len(codes) == 1:
+            def big_array_default(code, m_):
+                r = re.search(r'\[[^;\]]+; (\d+)\]: Default', m_)
+                return code == 'E0277' and r is not None and int(r.group(1)) > 32
+            if any(big_array_default(code, m_) for code, m_ in errs):
                 info['dist'].append('out-of-fragment:array>32-in-defaultable')
-                continue
+                errs = [(code, m_) for code, m_ in errs if not big_array_default(code, m_)]
+                codes = sorted(set(code for code, _ in errs))
+                if not codes:
+                    continue
+                main = ([x for x in codes if x != 'E0080'] or codes)[0]
             why = KNOWN_CODES.get(main, 'other')
             reason = 'C13/emitted-crate-rejected/%s' % why
             if main == 'E0080' and all(code == 'E0080' for code in codes):
